@@ -88,6 +88,13 @@ func runSelfTest(prop string, ps *PropSpec, repo string, seed int, p *Prog) map[
 		return code, first
 	}
 
+	// ---- the unchanged scratch copy must pass under the same conditions (every clause of the functions'
+	// contracts, the quick limits, the load of parallel runs): otherwise "reported" would mean nothing
+	if code, first := child(dirs[0], true); code != 0 {
+		rep["error"] = fmt.Sprintf("the unchanged scratch copy does not pass (exit %d: %s): self-test not run", code, first)
+		return rep
+	}
+
 	// ---- stored seeded changes of this property
 	type seedTask struct {
 		name, patch string
